@@ -709,6 +709,193 @@ pub fn run(ctx: &Ctx) {
         }
     }
     socket_stage(ctx, &reps);
+    socket_stage_async(ctx, &reps);
+    socket_stage_resolvers(ctx, &reps, if thorough { 400 } else { 30 });
+}
+
+/// The same replay against the tokio-based services (their receive loops are separate code).
+pub fn socket_stage_async(ctx: &Ctx, reps: &[(String, Vec<u8>)]) {
+    use simple_mdns::async_discovery::{ServiceDiscovery, SimpleMdnsResponder};
+    let net = match Net::new() {
+        Ok(n) => n,
+        Err(e) => {
+            ctx.set_extra("socket_stage_async", json!({"ran": false, "reason": format!("cannot open a UDP socket: {}", e)}));
+            return;
+        }
+    };
+    let rt = match tokio::runtime::Builder::new_multi_thread().worker_threads(2).enable_all().build() {
+        Ok(rt) => rt,
+        Err(e) => {
+            ctx.set_extra("socket_stage_async", json!({"ran": false, "reason": format!("no tokio runtime: {}", e)}));
+            return;
+        }
+    };
+    let started = guarded(|| -> Result<(SimpleMdnsResponder, ServiceDiscovery), String> {
+        rt.block_on(async {
+            let mut responder = SimpleMdnsResponder::new(10);
+            let rn = Name::new_unchecked("aresp._verif._udp.local").into_owned();
+            responder.add_resource(ResourceRecord::new(rn, CLASS::IN, 10, RData::A(simple_dns::rdata::A { address: 0x7f000002 }))).await;
+            let inst = InstanceInformation::new("ame".into()).with_ip_address("10.9.9.8".parse().unwrap()).with_port(4243);
+            let disc = ServiceDiscovery::new(inst, "_amysrv._tcp.local", 120).map_err(|e| format!("{:?}", e))?;
+            Ok((responder, disc))
+        })
+    });
+    let (_responder, disc) = match started {
+        Ok(Ok(x)) => x,
+        other => {
+            ctx.set_extra("socket_stage_async", json!({"ran": false, "reason": format!("services could not be started: {:?}", other.err().map(|p| p.message))}));
+            return;
+        }
+    };
+    std::thread::sleep(Duration::from_millis(200));
+    if !net.probe("aresp._verif._udp.local", 1, 0x7201) || !net.probe("ame._amysrv._tcp.local", 33, 0x7202) {
+        ctx.set_extra("socket_stage_async", json!({"ran": false, "reason": "the tokio services do not answer a benign probe over loopback multicast in this environment"}));
+        return;
+    }
+    let mut t = Tally::default();
+    let mut sent = 0u64;
+    for (i, (class, d)) in reps.iter().enumerate() {
+        if d.len() > 9000 {
+            continue;
+        }
+        let case = json!({"kind": "socket", "class": class, "datagram": hex(d)});
+        if net.send(d).is_err() {
+            continue;
+        }
+        sent += 1;
+        t.evals += 1;
+        t.transitions += 3;
+        t.nontrivial += 1;
+        let id = 0x7300 + (i as u16 & 0xff);
+        if !net.probe("aresp._verif._udp.local", 1, id) {
+            ctx.violation(finding("C14|socket-async|responder-dead", format!("the tokio SimpleMdnsResponder stopped answering after datagram class {} ({} bytes): {}", class, d.len(), crate::engine::truncate(&hex(d), 200)), case.clone()));
+            t.outcome("socket-async-responder-dead");
+            break;
+        }
+        if !net.probe("ame._amysrv._tcp.local", 33, id) {
+            ctx.violation(finding("C14|socket-async|discovery-dead", format!("the tokio ServiceDiscovery stopped answering after datagram class {} ({} bytes): {}", class, d.len(), crate::engine::truncate(&hex(d), 200)), case.clone()));
+            t.outcome("socket-async-discovery-dead");
+            break;
+        }
+        match guarded(|| rt.block_on(disc.get_known_services()).len()) {
+            Ok(_) => t.outcome("socket-async-alive"),
+            Err(pn) => {
+                ctx.violation(finding("C14|socket-async|application-task-panics", format!("get_known_services panics after datagram class {}: {}", class, pn.message), case));
+                break;
+            }
+        }
+    }
+    ctx.merge(t);
+    ctx.space("socket-level replay (tokio services): the same representatives sent to a running async SimpleMdnsResponder and async ServiceDiscovery, each followed by probe queries that must be answered and by get_known_services()", sent, "complete for the representative set");
+    ctx.set_extra("socket_stage_async", json!({"ran": true, "datagrams_sent": sent}));
+    drop(disc);
+    rt.shutdown_timeout(Duration::from_millis(200));
+}
+
+/// The one-shot resolvers (sync and tokio): a query is started, the hostile datagram arrives
+/// first, then a genuine answer. The call must return (with the genuine address, or nothing)
+/// within its timeout plus a margin, and must not panic.
+pub fn socket_stage_resolvers(ctx: &Ctx, reps: &[(String, Vec<u8>)], max_reps: usize) {
+    let net = match Net::new() {
+        Ok(n) => n,
+        Err(e) => {
+            ctx.set_extra("socket_stage_resolvers", json!({"ran": false, "reason": format!("cannot open a UDP socket: {}", e)}));
+            return;
+        }
+    };
+    let genuine = {
+        let mut p = RefPacket { id: 0, flags: F_QR | F_AA, ..Default::default() };
+        p.answers.push(RefRR { name: RefName::txt("res._verif._udp.local"), class: 1, cache_flush: false, ttl: 10, rdata: typed(1, vec![crate::refmodel::schema::Val::U32(0x7f000009)]) });
+        p.encode(0)
+    };
+    let want: IpAddr = "127.0.0.9".parse().unwrap();
+    // benign run first: does a resolver see our multicast at all?
+    let run = |asynchronous: bool, hostile: Option<&[u8]>| -> Result<(Option<Option<IpAddr>>, Duration), String> {
+        let (txr, rxr) = std::sync::mpsc::channel();
+        let h = std::thread::spawn(move || {
+            let r = guarded(|| -> Result<Option<IpAddr>, String> {
+                if asynchronous {
+                    let rt = tokio::runtime::Builder::new_current_thread().enable_all().build().map_err(|e| format!("{}", e))?;
+                    rt.block_on(async {
+                        let mut r = simple_mdns::async_discovery::OneShotMdnsResolver::new().map_err(|e| format!("{:?}", e))?;
+                        r.set_query_timeout(Duration::from_millis(500));
+                        let _ = txr.send(());
+                        r.query_service_address("res._verif._udp.local").await.map_err(|e| format!("{:?}", e))
+                    })
+                } else {
+                    let mut r = simple_mdns::sync_discovery::OneShotMdnsResolver::new().map_err(|e| format!("{:?}", e))?;
+                    r.set_query_timeout(Duration::from_millis(500));
+                    let _ = txr.send(());
+                    r.query_service_address("res._verif._udp.local").map_err(|e| format!("{:?}", e))
+                }
+            });
+            r
+        });
+        let t0 = Instant::now();
+        let _ = rxr.recv_timeout(Duration::from_secs(2));
+        std::thread::sleep(Duration::from_millis(40));
+        if let Some(d) = hostile {
+            let _ = net.send(d);
+            std::thread::sleep(Duration::from_millis(15));
+        }
+        let _ = net.send(&genuine);
+        // wait for the thread, but not forever
+        let deadline = Instant::now() + Duration::from_secs(4);
+        while !h.is_finished() && Instant::now() < deadline {
+            std::thread::sleep(Duration::from_millis(5));
+        }
+        if !h.is_finished() {
+            return Ok((None, t0.elapsed()));
+        }
+        match h.join() {
+            Ok(Ok(Ok(a))) => Ok((Some(a), t0.elapsed())),
+            Ok(Ok(Err(e))) => Ok((Some(None), t0.elapsed())).map(|x| {
+                let _ = e;
+                x
+            }),
+            Ok(Err(pn)) => Err(format!("panic: {} at {}", pn.message, pn.location)),
+            Err(_) => Err("resolver thread died".to_string()),
+        }
+    };
+    for asynchronous in [false, true] {
+        match run(asynchronous, None) {
+            Ok((Some(Some(a)), _)) if a == want => {}
+            other => {
+                ctx.set_extra(if asynchronous { "socket_stage_resolver_async" } else { "socket_stage_resolver_sync" }, json!({"ran": false, "reason": format!("a benign one-shot query is not answered in this environment: {:?}", other)}));
+                return;
+            }
+        }
+    }
+    let mut t = Tally::default();
+    let mut n = 0u64;
+    let step = (reps.len() / max_reps.max(1)).max(1);
+    for (i, (class, d)) in reps.iter().enumerate() {
+        if i % step != 0 || d.len() > 9000 {
+            continue;
+        }
+        for asynchronous in [false, true] {
+            let case = json!({"kind": "socket", "class": class, "datagram": hex(d)});
+            n += 1;
+            t.evals += 1;
+            t.transitions += 2;
+            t.nontrivial += 1;
+            let which = if asynchronous { "tokio" } else { "sync" };
+            match run(asynchronous, Some(d)) {
+                Err(e) => {
+                    ctx.violation(finding(format!("C14|socket-resolver|{}|panic", which), format!("{} one-shot resolver: {} after datagram class {}: {}", which, e, class, crate::engine::truncate(&hex(d), 200)), case));
+                    t.outcome("resolver-panic");
+                }
+                Ok((None, dt)) => {
+                    ctx.violation(finding(format!("C14|socket-resolver|{}|does-not-return", which), format!("{} one-shot resolver with a 500 ms timeout has not returned after {:?} (datagram class {}): {}", which, dt, class, crate::engine::truncate(&hex(d), 200)), case));
+                    t.outcome("resolver-stuck");
+                }
+                Ok((Some(_), _)) => t.outcome("resolver-returned"),
+            }
+        }
+    }
+    ctx.merge(t);
+    ctx.space("socket-level replay (one-shot resolvers, sync and tokio): a query in flight receives a representative datagram and then a genuine answer; the call must return within its timeout and not panic", n, "complete for the representative subset");
+    ctx.set_extra("socket_stage_resolvers", json!({"ran": true, "queries": n}));
 }
 
 pub fn replay(case: &Value) -> Vec<Finding> {
